@@ -109,6 +109,23 @@ func init() {
 	}
 }
 
+func init() {
+	specs["C12"] = &propSpec{
+		id:    "C12",
+		level: "exploration",
+		rule: "one evaluation = one simulated run: a corpus text (accepted or rejected) parsed through a tape-chosen entry point (ParseString, ParseBytes, Parse over a simulated chunking/failing reader, ParseFile) with every map-range visit of the translator and printer iterated in a tape-chosen order, the clock simulated, after tape-chosen prior activity (other parses and prints, an earlier module of the same text scribbled over, heap perturbation), sequentially (plain build) or as 2-4 concurrent parse tasks under the seeded scheduler (race build), followed by a canary parse; " +
+			"oracle: accepted <=> accepted in the reference, String() byte-identical and structural digest (pointer-numbered reflection walk fixing field contents and sharing) identical to the reference computed in another process with canonical order, failing reader gives (nil, err), no race report between parse tasks, no package-level shared object modified. " +
+			"distinct_nontrivial counts distinct (targets, entry points, hash of all applied map orders, hash of all context switches) among runs with a non-canonical map order or a context switch",
+		simulated:   []string{"Go map iteration order at every map range of asm/, ir/, internal/ (canonical order + tape-chosen permutation)", "goroutine scheduling of concurrent parse tasks", "wall clock (time.Now/time.Since)", "io.Reader argument of asm.Parse (chunking, zero reads, EOF shape, failure offset)", "prior activity and heap state of the process"},
+		assumptions: []string{"which error message a rejected input produces is not compared (with several errors the first one reached legitimately depends on translation order); only accepted/rejected is", "llir/ll (lexer, parser, AST) runs uninstrumented: it has no maps, goroutines or package-level mutable state", "sampling: a clean batch is evidence, not proof"},
+		procs:       1,
+		race:        always,
+		plain:       always,
+		shrinkTime:  120 * time.Second,
+		search:      c12SearchDriver,
+	}
+}
+
 // selfTest: determinism of the simulator itself (see selftest.go for the
 // properties that have a scheduler); the default is a no-op success.
 func selfTest(spec *propSpec, b *build) int {
